@@ -126,18 +126,19 @@ func (i *IPAddr) UnmarshalJSON(b []byte) error {
 
 // MarshalJSON marshals the IPAddr into JSON using the explicit form.
 func (i IPAddr) MarshalJSON() ([]byte, error) {
-	if i.Prefix().Bits() == i.Prefix().Addr().BitLen() {
-		return json.Marshal(extValueJSON{
-			Extn: &extn{
-				Fn:  "ip",
-				Arg: i.Addr().String(),
-			},
-		})
+	arg := i.String()
+	if a := i.Addr(); a.Is4In6() {
+		// String() prints ::ffff:a.b.c.d, which ParseIPAddr (like Cedar) rejects; use the hex form
+		b := a.As16()
+		arg = fmt.Sprintf("::ffff:%x:%x", uint16(b[12])<<8|uint16(b[13]), uint16(b[14])<<8|uint16(b[15]))
+		if i.Prefix().Bits() != a.BitLen() {
+			arg = fmt.Sprintf("%s/%d", arg, i.Prefix().Bits())
+		}
 	}
 	return json.Marshal(extValueJSON{
 		Extn: &extn{
 			Fn:  "ip",
-			Arg: i.String(),
+			Arg: arg,
 		},
 	})
 }
